@@ -19,14 +19,17 @@ pub mod gen {
     /// curated deeper documents, and `extra` random documents of depth <= 3
     pub fn docs(extra: usize, seed: u64) -> Vec<Value> {
         let l = leaves();
-        let mut out: Vec<Value> = l.clone();
+        // curated documents first: they are evaluated against EVERY query also in the quick tier (see ALWAYS)
+        let mut out: Vec<Value> = curated();
+        out.extend(l.clone());
         for x in &l { out.push(json!([x])); out.push(json!({"a": x})); out.push(json!({"b": x})); }
         for x in &l { for y in &l { out.push(json!([x, y])); out.push(json!({"a": x, "b": y})); } }
-        out.extend(curated());
         let mut rng = Rng(seed.wrapping_mul(0x9E3779B97F4A7C15) | 1);
         for _ in 0..extra { out.push(random_doc(&mut rng, 3)); }
         out
     }
+    /// number of leading documents that every query is evaluated on in the quick tier
+    pub fn always() -> usize { curated().len() + leaves().len() }
     pub fn curated() -> Vec<Value> {
         vec![
             json!([[{"a": 1}], [{"b": 1}]]),
@@ -53,6 +56,8 @@ pub mod gen {
             json!([{"a": false}, {"a": null}, {"a": 0}, {"b": false}, [false], [null], false, null]),
             json!({"a": {"a": 1}, "b": {"a": {"a": 2}}}),
             json!([[3, 1, 2], [1], [], [5, 4]]),
+            json!([18446744073709551615u64, 18446744073709551614u64, 1]),
+            json!([0, 1, 2, 3, 4, 5, 6]),
         ]
     }
     pub fn random_doc(rng: &mut Rng, depth: usize) -> Value {
@@ -103,6 +108,7 @@ pub mod gen {
             cmp(Eq(cur(vec![sn("a")]), cur(vec![sn("b")]))),                // @.a == @.b
             cmp(Lt(cur(vec![sn("a")]), cur(vec![sn("b")]))),                // @.a < @.b
             cmp(Eq(cur(vec![sn("a")]), rootq(vec![sn("a")]))),              // @.a == $.a
+            cmp(Eq(cur(vec![]), rootq(vec![SingularQuerySegment::Index(0)]))), // @ == $[0]
             cmp(Eq(cur(vec![SingularQuerySegment::Index(0)]), lit_i(1))),   // @[0] == 1
             cmp(Eq(cur(vec![SingularQuerySegment::Index(-1)]), lit_i(1))),  // @[-1] == 1
             cmp(Eq(cur(vec![]), lit_s("a"))),                               // @ == 'a'
@@ -154,6 +160,8 @@ pub mod gen {
             Selector::Slice(None, None, None), Selector::Slice(Some(1), None, None), Selector::Slice(None, Some(1), None),
             Selector::Slice(None, None, Some(-1)), Selector::Slice(Some(-1), Some(0), Some(-1)), Selector::Slice(Some(0), Some(3), Some(2)),
             Selector::Slice(None, None, Some(0)), Selector::Slice(Some(-big), Some(big), Some(1)), Selector::Slice(Some(1), Some(-1), None),
+            Selector::Slice(None, None, Some(-2)), Selector::Slice(None, None, Some(2)), Selector::Slice(Some(5), None, Some(-2)), Selector::Slice(Some(-8), None, Some(2)),
+            Selector::Slice(Some(4), Some(1), None), Selector::Slice(Some(0), None, Some(-1)), Selector::Slice(None, Some(-9), Some(-3)),
         ]
     }
     pub fn segments(filters: &[Filter], rng: &mut Rng, n_union: usize) -> Vec<Segment> {
